@@ -162,6 +162,13 @@ func uncompressIndices(indices interface{}) ([]int, error) {
 			}
 		case float64:
 			uncompressedIndices = append(uncompressedIndices, int(index))
+		// A delta that has not been through JSON holds the indices as diff.Diff made them.
+		case int:
+			uncompressedIndices = append(uncompressedIndices, index)
+		case [2]int:
+			for i := index[0]; i < index[0]+index[1]; i++ {
+				uncompressedIndices = append(uncompressedIndices, i)
+			}
 		default:
 			return nil, fmt.Errorf("uncompressIndices: unexpected index type: %v", reflect.TypeOf(index))
 		}
